@@ -218,6 +218,16 @@ def decision_table(ctx, fn, g):
         # the statements of magnet() has nothing to observe
         ctx.undecided("C11.3", fn, "the urn:btih / urn:btmh topics are not emitted by statements of magnet() itself; which topics a version request yields is not decided")
         return
+    # the row trace observes topics and separators as they are concatenated to a string variable (`uri += "xt=..."`); topics
+    # collected in a container and joined later are outside what it can read
+    for st in own_nodes(fn.node):
+        if isinstance(st, ast.stmt) and not isinstance(st, (ast.If, ast.For, ast.While, ast.With, ast.Try, ast.FunctionDef)) \
+                and any(isinstance(x, ast.Constant) and isinstance(x.value, str) and "urn:bt" in x.value for x in ast.walk(st)):
+            plain = (isinstance(st, ast.AugAssign) and isinstance(st.target, ast.Name) and isinstance(st.op, ast.Add)) or \
+                    (isinstance(st, ast.Assign) and len(st.targets) == 1 and isinstance(st.targets[0], ast.Name) and isinstance(st.value, (ast.BinOp, ast.Constant, ast.JoinedStr)))
+            if not plain:
+                ctx.undecided("C11.3", fn, "the exact topics are not appended to the URI by plain string concatenation (`%s`); which topics a version request yields is not decided" % norm(st)[:60], st)
+                return
     # `if` statements that neither emit a topic / separator nor leave the function: whichever way they go, the row reads the same
     def observable(st):
         for x in ast.walk(st):
